@@ -634,6 +634,9 @@ class MathMixin(object):
             if result['ok'] != True:
                 num_failures += 1
                 if len(results) == 1 or num_failures > failable_evals:
+                    # The grade may have been scaled by the answer's credit since
+                    # the comparer set 'ok' (partial credit times zero is plain wrong)
+                    result['ok'] = ItemGrader.grade_decimal_to_ok(result['grade_decimal'])
                     return result
         
         # This response appears to agree with the expected answer
